@@ -117,7 +117,7 @@ pub fn copy_program(src: &FileRead, knob: Option<usize>) -> Program {
         }
         calls.push(Call::Img { guid: img.guid.clone().unwrap_or_default(), steps, end: SubEnd::Finalize });
     }
-    Program { guid: src.guid.clone(), calls, end: End::Finalize, knob }
+    Program { guid: src.guid.clone(), calls, end: End::Finalize, knob, on_error: OnError::Stop }
 }
 
 /// Image payloads of a copy are explicit bytes, not generated ones: carried through `Bytes` with
